@@ -310,9 +310,9 @@ def _dup_kind_across_rules(v, ctx):
         m_ = re.search(r"the name `(\w+)` is defined multiple times", e["msg"]) if e["code"] == "E0428" else None
         if m_:
             dup.add(m_.group(1))
-    # what else rustc says about the actions file follows from the double definitions (fields of
-    # the "wrong" struct, conflicting derives, recursion through it)
-    if not dup or not all(e["file"] == "g_actions" for e in errs):
+    # what else rustc says (in the actions file and in the parser that calls it) follows from the
+    # double definitions: fields of the "wrong" struct, conflicting derives, recursion through it
+    if not dup:
         return False
     text = ctx.grammar(v["stage"], v["id"])
     text = re.sub(r"/\*.*?\*/", " ", text, flags=re.S)
